@@ -147,8 +147,15 @@ def check_riemann_gen(case):
     P = case['params']
     s = cat.make_solver(case)
     sol = cat.run(case, solver=s)
-    x = np.asarray(sol['position'], float)
     grid = np.asarray(s.x, float)
+    # ... plus a regular sweep over all regions, taken AT nodes of the solver's own table (public attribute x), where rho, p and e are its
+    # own mutually consistent values and not three separately interpolated ones
+    inside = grid[(grid > P['xd0'] - 1.1 * case['span']) & (grid < P['xd0'] + 1.1 * case['span'])]
+    if inside.size > 60:
+        inside = inside[::max(1, inside.size // 60)]
+    if inside.size:
+        sol = cat.run(case, solver=s, x=np.concatenate([np.asarray(case['x'], float), inside]))
+    x = np.asarray(sol['position'], float)
     cell = (grid.max() - grid.min()) / P['num_x_pts']
     waves = P['xd0'] + case['t'] * np.asarray(s.Vregs, float)
     keep = np.all(np.abs(x[:, None] - waves[None, :]) > 2.5 * cell, axis=1)
